@@ -472,6 +472,7 @@ type ShadowCase struct {
 	Outer  string // noise wrapper around the whole shadow form
 	InFn   bool   // the whole form lives in (defun g () ...) called afterwards
 	NoTail bool   // force the call out of tail position
+	Paren  bool   // spell binding entries with ( ) instead of [ ]
 }
 
 // expression-level shadow contexts: templates over holes
@@ -606,6 +607,7 @@ func genShadow() *rapid.Generator[ShadowCase] {
 			c.InFn = rapid.IntRange(0, 3).Draw(t, "infn") == 0
 		}
 		c.NoTail = rapid.Bool().Draw(t, "notail")
+		c.Paren = rapid.Bool().Draw(t, "paren")
 		return c
 	})
 }
@@ -654,7 +656,7 @@ func buildShadow(c ShadowCase) (p *Program, bad string) {
 		return P(tpl, holes)
 	}
 	h := wrap(c.Inner, hNode)
-	p = &Program{}
+	p = &Program{Paren: c.Paren}
 	if c.NUser {
 		p.Forms = append(p.Forms, defunNode("defun", c.N, c.NSig, P(`(probe "orig")`, nil)))
 	}
